@@ -148,6 +148,7 @@ func (rt *e2eRT) RoundTrip(req *http.Request) (*http.Response, error) {
 	w.conns = append(w.conns, c)
 	cl.conns = append(cl.conns, c)
 	w.sim.Logf("RoundTrip", "client%d conn%d Last-Event-ID=%q", cl.id, c.id, req.Header.Values("Last-Event-ID"))
+
 	sreq, err := http.NewRequestWithContext(c.srvCtx, req.Method, "http://sim.invalid/events", nil)
 	if err != nil {
 		panic(err)
@@ -263,22 +264,65 @@ type recReplayer struct {
 }
 
 type e2ePut struct {
+	at     time.Duration // simulated instant of the Put
 	msg    *e2eMsg
 	id     string
 	topics []string
 }
 
 func (r *recReplayer) Put(m *sse.Message, topics []string) (*sse.Message, error) {
+	if head, count, size, ok := ringState(r.inner); ok && size > 0 {
+		kind := "ValidReplayer"
+		if r.w.finite {
+			kind = "FiniteReplayer"
+		}
+		if head != 0 {
+			r.w.o.probe("reach: Put on a " + kind + " whose ring's head is not at index 0")
+		}
+		if head != 0 && count == size {
+			r.w.o.probe("reach: Put on a full " + kind + " ring whose head is not at index 0")
+		}
+	}
+	head0, _, size0, ok0 := ringState(r.inner)
 	out, err := r.inner.Put(m, topics)
+	if _, _, size1, ok1 := ringState(r.inner); ok0 && ok1 && size1 > size0 && head0 != 0 {
+		r.w.o.probe("reach: a Put grew the ring while its head was not at index 0")
+		r.w.grewWrapped = len(r.puts) + 1
+	}
 	if err == nil {
 		em := r.w.byMsg[m]
-		r.puts = append(r.puts, &e2ePut{msg: em, id: out.ID.String(), topics: topics})
+		r.puts = append(r.puts, &e2ePut{msg: em, id: out.ID.String(), topics: topics, at: r.w.sim.Elapsed()})
 		r.w.sim.Logf("Put", "P[%d]=%s id=%q topics=%s", len(r.puts)-1, em.tag, out.ID.String(), fmtTopics(topics))
 	}
 	return out, err
 }
 
-func (r *recReplayer) Replay(sub sse.Subscription) error { return r.inner.Replay(sub) }
+// Replay also decides whether the property's premise holds for this resumption: the event the
+// client resumes from must still be held (not expired, not evicted) when Joe asks for the replay.
+func (r *recReplayer) Replay(sub sse.Subscription) error {
+	w := r.w
+	if w.grewWrapped > 0 && sub.LastEventID.IsSet() {
+		w.o.probe("reach: a replay was asked for after the ring had grown while wrapped")
+	}
+	if sess, ok := sub.Client.(*sse.Session); ok && sub.LastEventID.IsSet() {
+		i, _ := strconv.Atoi(sess.Req.Header.Get("X-Sim-Client"))
+		cl := w.clients[i]
+		for k, p := range r.puts {
+			if p.id != sub.LastEventID.String() {
+				continue
+			}
+			switch {
+			case w.ttl > 0 && p.at+w.ttl <= w.sim.Elapsed()+time.Minute:
+				cl.excluded = true
+				w.o.probe("excluded: the event to resume from had expired before the reconnection")
+			case w.capacity > 0 && len(r.puts)-k > w.capacity:
+				cl.excluded = true
+				w.o.probe("excluded: the event to resume from had been evicted before the reconnection")
+			}
+		}
+	}
+	return r.inner.Replay(sub)
+}
 
 type e2eWorld struct {
 	rc  *RunCtx
@@ -286,11 +330,14 @@ type e2eWorld struct {
 	ch  *Chooser
 	sim *verifhook.Sim
 
-	server *sse.Server
-	joe    *sse.Joe
-	rep    *recReplayer
-	auto   bool
-	finite bool
+	server      *sse.Server
+	joe         *sse.Joe
+	rep         *recReplayer
+	auto        bool
+	finite      bool
+	grewWrapped int           // reach probe: number of puts when the ring grew while wrapped (0: never)
+	ttl         time.Duration // ValidReplayer with a TTL that events outlive during the run (0: none expires)
+	capacity    int           // FiniteReplayer with a capacity the run's publishes exceed (0: never evicts)
 
 	clients []*e2eClient
 
@@ -319,6 +366,9 @@ type e2eClient struct {
 	connectRet bool
 	caughtUp   bool
 	rejected   bool
+	// excluded: the event the client wanted to resume from had expired when it reconnected, so the
+	// replayer was not "large enough to hold what is published while a client is away"
+	excluded bool
 }
 
 func normalizeData(parts []string) (string, bool) {
@@ -351,13 +401,26 @@ func (w *e2eWorld) generate() {
 	w.byMsg = map[*sse.Message]*e2eMsg{}
 	var inner sse.Replayer
 	if w.finite {
-		fr, err := sse.NewFiniteReplayer(64, w.auto) // large enough for everything published while the client is away
+		capacity := 64 // large enough for everything published while the client is away
+		if ch.Chance(1, 3, "small finite replayer") {
+			// the ring wraps during the run; a client whose resume point was evicted is outside the property
+			w.capacity = []int{4, 6, 8}[ch.Intn(3, "capacity")]
+			capacity = w.capacity
+		}
+		fr, err := sse.NewFiniteReplayer(capacity, w.auto)
 		if err != nil {
 			panic(err)
 		}
 		inner = fr
 	} else {
-		vr, err := sse.NewValidReplayer(10000*time.Hour, w.auto)
+		ttl := 10000 * time.Hour
+		if ch.Chance(1, 3, "events expire during the run") {
+			// simulated hours pass between some publishes: old events expire and are collected (the
+			// buffer's head moves, it shrinks and grows again) while everything a client still needs stays
+			w.ttl = time.Hour
+			ttl = w.ttl
+		}
+		vr, err := sse.NewValidReplayer(ttl, w.auto)
 		if err != nil {
 			panic(err)
 		}
@@ -383,11 +446,14 @@ func (w *e2eWorld) generate() {
 		w.server.Logger = func(*http.Request) *slog.Logger { return lg }
 	}
 	nPubs := ch.Range(1, 3, "publishers")
-	budget := 12
+	budget, perPub := 12, 6
+	if w.ttl > 0 || w.capacity > 0 {
+		budget, perPub = 18, 12 // enough for the buffer to wrap, be collected, shrink and grow again
+	}
 	seq := 0
 	for p := 0; p < nPubs; p++ {
 		var list []*e2eMsg
-		for n := 0; n < 6 && budget > 0 && ch.Chance(4, 5, "more messages"); n++ {
+		for n := 0; n < perPub && budget > 0 && ch.Chance(4, 5, "more messages"); n++ {
 			seq++
 			budget--
 			em := &e2eMsg{tag: "m" + strconv.Itoa(seq)}
@@ -496,6 +562,12 @@ func (w *e2eWorld) build() {
 	if ch.Chance(1, 2, "no jitter") {
 		b.Jitter = -1
 	}
+	if w.ttl > 0 && ch.Chance(1, 2, "long reconnection time") {
+		// a client that stays away for a good part of the TTL: publishes, collections and buffer
+		// growth happen while it is away (its resume point may expire: then it is outside the property)
+		b.InitialInterval = []time.Duration{10 * time.Minute, 30 * time.Minute}[ch.Intn(2, "long initial interval")]
+		b.MaxInterval = b.InitialInterval
+	}
 	// the application may drive reconnection itself: no built-in retries, Connect called again on
 	// the same Connection whenever it returns
 	appLoop := ch.Chance(1, 3, "application-driven reconnection")
@@ -542,6 +614,10 @@ func (w *e2eWorld) build() {
 				if gap > 0 {
 					target := w.totalReceived() + gap - 1
 					sim.WaitWeak("publisher paces", func() bool { return w.totalReceived() >= target })
+				}
+				if w.ttl > 0 && ch.Chance(1, 3, "time passes before the publish") {
+					sim.Sleep("time passes", []time.Duration{20 * time.Minute, 45 * time.Minute, 20 * time.Minute, 45 * time.Minute, 90 * time.Minute}[ch.Intn(5, "hours")])
+					w.o.probe("simulated time passes between publishes (events expire)")
 				}
 				sim.Logf("Publish", "%s id=%q type=%q data=%q topics=%s", em.tag, em.id, em.typ, em.data, fmtTopics(em.topics))
 				em.err = w.server.Publish(em.msg, em.topics...)
@@ -600,6 +676,15 @@ func (w *e2eWorld) build() {
 	})
 	sim.Spawn("closer", func() {
 		sim.WaitFor("closer waits for publishers and cutter", func() bool { return w.pubsDone == len(w.pubs) && w.cutterDone })
+		// one last cut after everything was published: the reconnection meets the replayer in its final
+		// state (wrapped, collected, shrunk, grown) and must get exactly what the client still misses
+		for _, cl := range w.clients {
+			if c := cl.activeConn(); c != nil && len(cl.received) > 0 && ch.Chance(1, 3, "last cut after all publishes") {
+				w.doCut(c)
+				w.o.probe("cut after all publishes")
+				sim.YieldHere("closer")
+			}
+		}
 		w.faultsOver = true
 		sim.Log("closer", "faults stopped, all publishes returned")
 		// bounded liveness: once faults stop every client catches up
@@ -636,7 +721,7 @@ func (w *e2eWorld) build() {
 // isCaughtUp: the client has received everything expected from its first event on.
 func (cl *e2eClient) isCaughtUp() bool {
 	exp := cl.expected()
-	if len(cl.received) == 0 {
+	if len(cl.received) == 0 || cl.excluded {
 		return true // before its first event a client has nothing to resume from: outside the property
 	}
 	f := cl.indexOfFirst(exp)
@@ -663,7 +748,7 @@ func eventTag(e RefEvent) string {
 // checkSafety runs after every callback: O = P[f .. f+|O|).
 func (cl *e2eClient) checkSafety() {
 	w := cl.w
-	if len(w.o.Violations) > 0 {
+	if len(w.o.Violations) > 0 || cl.excluded {
 		return
 	}
 	exp := cl.expected()
@@ -828,7 +913,7 @@ func runE2EWorld(rc *RunCtx) *Outcome {
 }
 
 func (w *e2eWorld) describe() []string {
-	out := []string{fmt.Sprintf("replayer finite=%v autoIDs=%v", w.finite, w.auto)}
+	out := []string{fmt.Sprintf("replayer finite=%v autoIDs=%v ttl=%v capacity=%d", w.finite, w.auto, w.ttl, w.capacity)}
 	for _, cl := range w.clients {
 		out = append(out, fmt.Sprintf("client%d sessionTopics=%s", cl.id, fmtTopics(cl.sessTopics)))
 	}
@@ -870,7 +955,10 @@ func (w *e2eWorld) evaluate(res verifhook.Result) {
 		return
 	}
 	// excluded by the property: a session that ended before anything was sent yields an empty 200 the validator rejects
-	anyRejected := false
+	anyRejected, anyExcluded := false, false
+	for _, cl := range w.clients {
+		anyExcluded = anyExcluded || cl.excluded
+	}
 	for _, cl := range w.clients {
 		var ce *sse.ConnectionError
 		cl.rejected = errors.As(cl.connectErr, &ce) && ce.Reason == "response validation failed"
@@ -887,7 +975,7 @@ func (w *e2eWorld) evaluate(res verifhook.Result) {
 		for _, t := range res.Unfinish {
 			names = append(names, t.Name+"@"+t.Site())
 		}
-		if w.faultsOver && !anyRejected {
+		if w.faultsOver && !anyRejected && !anyExcluded {
 			var state []string
 			for _, cl := range w.clients {
 				state = append(state, fmt.Sprintf("client%d at %s of %s", cl.id, cl.tagsReceived(), w.tagsExpected(cl.expected())))
@@ -899,7 +987,7 @@ func (w *e2eWorld) evaluate(res verifhook.Result) {
 		return
 	}
 	for _, cl := range w.clients {
-		if !cl.rejected && w.faultsOver && !cl.caughtUp {
+		if !cl.rejected && !cl.excluded && w.faultsOver && !cl.caughtUp {
 			o.violate("C05", "never-caught-up", "client%d: Connect returned %v before the client had caught up: received %s of %s", cl.id, cl.connectErr, cl.tagsReceived(), w.tagsExpected(cl.expected()))
 		}
 	}
